@@ -488,6 +488,42 @@ class EnvFlags(_ShEnc, Position):
         return ([[s, '-DP=1', '-DG=0', s, '-DG=1', '-DL=1']], [[s, '-Wl,-g', '-Wl,-l', '-lk', s]])
 
 
+class ToolPath(_ShEnc, Position):
+    """the compiler lives in a directory named by the string: the tool command (CC=...) is written
+    into the build file's tool variable and must start exactly that program"""
+    name = 'tool_command_path'
+    per_project = True
+    needs_nonempty = True
+
+    def admissible(self, s, info):
+        return name_admissible(s) and s in info['shenc'] and len(s.encode()) < 100
+
+    def prepare(self, rn, strings):
+        s, = strings
+        d = os.path.join(rn.root, 'tooldirs', s)
+        shutil.rmtree(os.path.join(rn.root, 'tooldirs'), ignore_errors=True)
+        os.makedirs(d)
+        self._cc = os.path.join(d, 'cc')
+        os.symlink(bfg.RECORDER, self._cc)
+
+    def config_env(self, strings):
+        return {'CC': sh_enc(self._cc)}
+
+    def script(self, strings):
+        return "executable('c0', ['main.c'])\n"
+
+    def targets(self, strings):
+        return ['c0']
+
+    def observe(self, i, s, recs):
+        return [x['argv'][0].replace(os.path.dirname(os.path.dirname(self._cc)), '<tooldirs>')
+                for x in recs if x['tool'] == 'cc']
+
+    def expected(self, s):
+        p = '<tooldirs>/%s/cc' % s
+        return [p, p]
+
+
 def name_admissible(s):
     """path-component domain: no separators, not . or .., no leading ~ (user expansion),
     no drive-letter form, no leading/trailing space"""
@@ -557,7 +593,7 @@ class CopyPath(FilePosition):
 
 POSITIONS = [CmdArg(), CmdArgEnvBoth(), BuildStepArg(), CmdWord(), EnvValue(), EnvValueShellLine(), TestArg(),
              DriverArg(False), DriverArg(True), DriverWord(), CompileOpt(), DefineOpt(),
-             LinkOpt(), GlobalOpt(), CompileOptString(), LinkOptString(), EnvFlags()]
+             LinkOpt(), GlobalOpt(), CompileOptString(), LinkOptString(), EnvFlags(), ToolPath()]
 POS = {p.name: p for p in POSITIONS}
 
 
@@ -593,6 +629,8 @@ class Runner:
             files.update(pos.files(strings))
         bfg.write_tree(src, files)
         env = self.env
+        if hasattr(pos, 'prepare'):
+            pos.prepare(self, strings)
         if hasattr(pos, 'config_env'):
             env = dict(env, **pos.config_env(strings))
         r = bfg.configure(src, bld, self.backend, env, inproc=inproc)
